@@ -26,7 +26,10 @@ class StmtMixin(object):
             st = self.exec_stmt(s, st, acc)
         return st
 
+    cur_line = 0
+
     def exec_stmt(self, node, st, acc):
+        self.cur_line = getattr(node, "lineno", self.cur_line)
         m = getattr(self, "s_" + type(node).__name__, None)
         if m is None:
             raise Undecided("statement %s" % type(node).__name__)
